@@ -13,6 +13,8 @@ import (
 	"fmt"
 	"math/rand"
 	"sort"
+	"strconv"
+	"strings"
 	"sync"
 
 	ipfslog "berty.tech/go-ipfs-log"
@@ -407,6 +409,8 @@ type RepState struct {
 	NilKeys    int      `json:"nilkeys"`  // keys the entry index lists without holding an entry for them
 	Bad        []BadRec `json:"bad"`      // tampered copies this replica holds (ground truth from the script)
 	OrigDigs   []int    `json:"origdigs"` // digest id each entry of Ents had when it was first observed
+	StrIDs     []int    `json:"strids"`   // ToString(): the entry of each line ...
+	StrDepth   []int    `json:"strdepth"` // ... and its indentation depth (number of entries FindChildren returned)
 }
 
 // BadRec names one tampered copy.
@@ -495,5 +499,36 @@ func Project(g *Registry, pool *Pool, l *ipfslog.IPFSLog, pure bool) RepState {
 	if l.Identity != nil {
 		st.Ident = pool.RankOfKey(l.Identity.PublicKey)
 	}
+	st.StrIDs, st.StrDepth = projectToString(g, l)
 	return st
+}
+
+// projectToString renders the log with ToString (each payload replaced by the entry's id) and parses the
+// lines back into (id, depth): a line is 2*(depth-1) spaces, then the corner, then the payload; depth 0 has neither.
+func projectToString(g *Registry, l *ipfslog.IPFSLog) ([]int, []int) {
+	ids, depths := []int{}, []int{}
+	if l.Len() == 0 {
+		return ids, depths
+	}
+	out := l.ToString(func(e iface.IPFSLogEntry) string { return fmt.Sprintf("#%d", g.ID(e.GetHash())) })
+	if out == "" {
+		return ids, depths
+	}
+	for _, line := range strings.Split(out, "\n") {
+		i := strings.Index(line, "#")
+		if i < 0 {
+			ids, depths = append(ids, 0), append(depths, -1)
+			continue
+		}
+		id, _ := strconv.Atoi(line[i+1:])
+		pad := line[:i]
+		depth := 0
+		if strings.HasSuffix(pad, "└─") {
+			depth = strings.Count(strings.TrimSuffix(pad, "└─"), "  ") + 1
+		} else if pad != "" {
+			depth = -1
+		}
+		ids, depths = append(ids, id), append(depths, depth)
+	}
+	return ids, depths
 }
